@@ -203,7 +203,7 @@ static void run(jv *s, int idx)
 {
   jv *cfg = s->a[0];
   jv *v = j_mkobj(); j_put(v, "i", j_mkint(idx)); j_put(v, "ok", j_mkint(1));
-  if (j_int(cfg, "cwdlen", 0) > 0 || j_int(cfg, "limit", 32) < 0) { j_put(v, "skipped", j_mkint(1)); emit(v); _exit(0); }
+  if (j_int(cfg, "cwdlen", 0) > 0 || j_int(cfg, "limit", 32) < 0 || j_int(cfg, "limit", 32) > 1024 /* (the crowded-caller points are replayed on the simulated kernel only) */) { j_put(v, "skipped", j_mkint(1)); emit(v); _exit(0); }
   /* descriptors */
   jv *fds = j_get(cfg, "fds");
   static const char *tn[3] = { "/t0", "/t1", "/t2" };
